@@ -310,6 +310,7 @@ func Run(c *core.Ctx) core.FinishOpts {
 	})
 
 	multiEvalCases(c, runner, only, selftest)
+	fanoutCases(c, runner, only, selftest)
 
 	return core.FinishOpts{
 		Level: "exploration",
